@@ -190,7 +190,45 @@ func c07(c *ev.Ctx) {
 			return map[string]interface{}{"script": script, "history_len": hlen, "faults": faults}
 		})
 	})
+	c07Limits(c)
 	c07Fixed(c)
+}
+
+// c07Limits: failing runs deep inside recursion must not use up the call-depth budget
+// (or anything else) of later runs.
+func c07Limits(c *ev.Ctx) {
+	script := `function down(n) { if (n <= 0) { if (Mode == 1) { panic("bottom"); } if (Mode == 2) { return 1 % Zero; } if (Mode == 3) { return down(1, 2); } if (Mode == 4) { return nosuch(); } return 0; } return 1 + down(n - 1); } return down(Depth);`
+	for variant := 0; variant < c.Pick(4, 16); variant++ {
+		id := fmt.Sprintf("limits/%d", variant)
+		if !c.Want(id) {
+			continue
+		}
+		r := c.Rng("limits", variant)
+		a, err := eng.New(script, eng.Options{NoOptimize: variant%2 == 1, Budget: 50000000})
+		if err != nil {
+			c.Violation(id, "prepare", map[string]interface{}{"summary": err.Error()})
+			continue
+		}
+		for step := 0; step < 8; step++ {
+			mode := 1 + r.Intn(4)
+			if step%2 == 1 {
+				mode = 0 // a run that must succeed, close to the engine's call-depth limit
+			}
+			depth := 2000 + r.Intn(1500)
+			if mode == 0 {
+				depth = 9000 + r.Intn(900)
+			}
+			obj := map[string]interface{}{"Mode": mode, "Depth": depth, "Zero": 0}
+			b, _ := eng.New(script, eng.Options{NoOptimize: variant%2 == 1, Budget: 50000000})
+			oa, ob := a.Exec(obj), b.Exec(obj)
+			c.Case(fmt.Sprint(id, step), true)
+			if oa.Desc() != ob.Desc() || oa.Steps != ob.Steps || (mode == 0 && oa.Desc() != fmt.Sprintf("INTEGER:%d", depth)) {
+				c.Violation(id, "limits drift after failing runs", map[string]interface{}{
+					"summary": fmt.Sprintf("step %d (mode %d, recursion depth %d): used evaluator gives %s %s after %d instructions, a fresh one %s %s after %d", step+1, mode, depth, oa.Desc(), errText(oa.Err), oa.Steps, ob.Desc(), errText(ob.Err), ob.Steps), "script": script})
+				break
+			}
+		}
+	}
 }
 
 // fixed histories, each a former defect
